@@ -26,6 +26,10 @@ class NotInlinable(Exception):
     pass
 
 
+def src_is_self(e: ast.AST) -> bool:
+    return isinstance(e, ast.Name) and e.id == 'self'
+
+
 def _local_names(fn: ast.FunctionDef) -> Set[str]:
     out = {a.arg for a in fn.args.posonlyargs + fn.args.args + fn.args.kwonlyargs}
     for n in ast.walk(fn):
@@ -84,7 +88,7 @@ def _docless(body: List[ast.stmt]) -> List[ast.stmt]:
 
 class Inliner:
     def __init__(self, index: RepoIndex, func: Func, exclude: Optional[Set[str]] = None,
-                 depth: int = 2):
+                 depth: int = 2, methods: bool = False, cross: Optional[Set[str]] = None):
         self.index = index
         self.func = func
         self.module = func.module
@@ -92,18 +96,38 @@ class Inliner:
         self.depth = depth
         self.counter = 0
         self.inlined: List[str] = []
+        self.methods = methods
+        self.cross = cross or set()
+        self.generated: Set[str] = set()
 
     def helper(self, call: ast.Call) -> Optional[ast.FunctionDef]:
-        if not isinstance(call.func, ast.Name):
+        if self.methods and isinstance(call.func, ast.Attribute) and \
+                isinstance(call.func.value, ast.Name) and call.func.value.id == 'self' and \
+                self.func.cls is not None:
+            # a private method of the same class, called on self
+            name = call.func.attr
+            m = self.index.method(self.func.cls, name)
+            if m is None or m.node.decorator_list or not name.startswith('_') or \
+                    name.startswith('__') or name == self.func.name or name in self.exclude:
+                return None
+            if any(sub.methods.get(name) is not None
+                   for sub in self.index.subclasses(self.func.cls.name)):
+                return None   # overridden somewhere: not a fixed body
+            f = m
+        elif not isinstance(call.func, ast.Name):
             return None
-        name = call.func.id
-        if name == self.func.name or name in self.exclude:
-            return None
-        f = self.module.functions.get(name)
-        if f is None or f.node.decorator_list:
-            return None
-        if name == 'factory':
-            return None
+        else:
+            name = call.func.id
+            if name == self.func.name or name in self.exclude:
+                return None
+            f = self.module.functions.get(name)
+            if f is None and name in self.cross:
+                r = self.index.resolve_name(self.module, name)
+                f = r if isinstance(r, Func) and r.cls is None else None
+            if f is None or f.node.decorator_list:
+                return None
+            if name == 'factory':
+                return None
         fn = f.node
         if fn.args.vararg or fn.args.kwarg:
             return None
@@ -117,6 +141,9 @@ class Inliner:
                 return None
             if isinstance(n, ast.Call) and isinstance(n.func, ast.Name) and n.func.id == name:
                 return None   # recursion
+            if isinstance(n, ast.Call) and isinstance(n.func, ast.Attribute) and \
+                    n.func.attr == name and src_is_self(n.func.value):
+                return None   # recursion
         return fn
 
     def expand_call(self, call: ast.Call, at: ast.stmt) -> Optional[tuple]:
@@ -128,7 +155,14 @@ class Inliner:
         pre = f'_{fn.name}{self.counter}_'
         mp = {n: pre + n for n in _local_names(fn)}
         result = pre + 'result'
+        self.generated |= set(mp.values()) | {result}
         params = [a.arg for a in fn.args.posonlyargs + fn.args.args]
+        is_method = isinstance(call.func, ast.Attribute)
+        if is_method:
+            if not params:
+                return None
+            mp.pop(params[0], None)      # `self` stays `self`
+            params = params[1:]
         kwonly = [a.arg for a in fn.args.kwonlyargs]
         defaults: Dict[str, ast.AST] = {}
         nd = len(fn.args.defaults)
@@ -217,12 +251,12 @@ class Inliner:
         fn = copy.deepcopy(self.func.node)
         fn.body = self.block(fn.body, self.depth)
         if self.inlined:
-            propagate_copies(fn)
+            propagate_copies(fn, self.generated)
         ast.fix_missing_locations(fn)
         return fn
 
 
-def propagate_copies(fn: ast.FunctionDef) -> None:
+def propagate_copies(fn: ast.FunctionDef, generated: Optional[Set[str]] = None) -> None:
     """remove the alias chains inlining leaves behind (`p' = p`, `result = v`, `x = result`):
     for `x = y` with x stored exactly once, y a never-reassigned parameter -> x is renamed to y;
     y a local stored exactly once -> y is renamed to x (the caller's name survives).  Both
@@ -250,13 +284,59 @@ def propagate_copies(fn: ast.FunctionDef) -> None:
                         if y in params and stores.get(y, 0) == 0:
                             found = (blk, st, x, y)
                         elif y not in params and stores.get(y) == 1:
-                            found = (blk, st, y, x)
+                            # the caller's own name survives, not the inliner's
+                            if generated and x in generated and y not in generated:
+                                found = (blk, st, x, y)
+                            else:
+                                found = (blk, st, y, x)
                         if found:
                             break
                 if found:
                     break
             if found:
                 break
+        if not found and generated:
+            # generated parameter locals bound to a constant or an attribute chain that the
+            # function never assigns: substitute the value
+            attr_stores = {ast.unparse(n) for n in ast.walk(fn)
+                           if isinstance(n, ast.Attribute) and isinstance(n.ctx, (ast.Store, ast.Del))}
+            done = False
+            for parent in ast.walk(fn):
+                for field in ('body', 'orelse', 'finalbody'):
+                    blk = getattr(parent, field, None)
+                    if not (isinstance(blk, list) and blk and isinstance(blk[0], ast.stmt)):
+                        continue
+                    for st in blk:
+                        if not (isinstance(st, ast.Assign) and len(st.targets) == 1 and
+                                isinstance(st.targets[0], ast.Name)):
+                            continue
+                        x, v = st.targets[0].id, st.value
+                        if x not in generated or stores.get(x) != 1:
+                            continue
+                        ok = isinstance(v, ast.Constant)
+                        if isinstance(v, ast.Attribute):
+                            root = v
+                            while isinstance(root, ast.Attribute):
+                                root = root.value
+                            text = ast.unparse(v)
+                            ok = isinstance(root, ast.Name) and stores.get(root.id, 0) == 0 and \
+                                not any(t == text or text.startswith(t + '.')
+                                        for t in attr_stores)
+                        if not ok:
+                            continue
+                        if len(blk) == 1:
+                            blk[0] = ast.copy_location(ast.Pass(), st)
+                        else:
+                            blk.remove(st)
+                        _SubstNames({x: v}).visit(fn)
+                        done = True
+                        break
+                    if done:
+                        break
+                if done:
+                    break
+            if done:
+                continue
         if not found:
             return
         blk, st, old, new = found
@@ -284,10 +364,12 @@ def _replace_node(root: ast.AST, old: ast.AST, new: ast.AST) -> None:
                         val[i] = new
 
 
-def inlined_function(index: RepoIndex, func: Func, exclude: Optional[Set[str]] = None):
-    """(function node with module-local helper calls inlined, names of helpers inlined)"""
+def inlined_function(index: RepoIndex, func: Func, exclude: Optional[Set[str]] = None,
+                     methods: bool = False, cross: Optional[Set[str]] = None):
+    """(function node with module-local helper calls -- and, with `methods`, calls of private
+    methods on self -- inlined, names of helpers inlined)"""
     try:
-        il = Inliner(index, func, exclude)
+        il = Inliner(index, func, exclude, methods=methods, cross=cross)
         node = il.run()
         if not il.inlined:
             return func.node, []
@@ -383,7 +465,7 @@ def inline_pure_exprs(index: RepoIndex, module: Module, cls, expr: ast.AST,
             target = None
             skip_self = False
             if isinstance(c.func, ast.Name):
-                r = index.resolve_callee(module, c.func, None)
+                r = module.functions.get(c.func.id)
                 if isinstance(r, Func) and r.cls is None and not r.node.decorator_list:
                     target = r
             elif isinstance(c.func, ast.Attribute) and isinstance(c.func.value, ast.Name) \
